@@ -47,9 +47,9 @@ THEOREMS = [
     "Lineno.attr_field_only_correct", "Lineno.attr_own_only_correct", "Lineno.attr_both_partial",
     "Lineno.attr_both_counterexample",
     # hunter round
-    "Lineno.reportedLineS_eq_partial", "Lineno.reportedLineS_epytext", "Lineno.reportedLineS_counterexample",
+    "Lineno.reportedLineS_eq", "Lineno.reportedLineSOld_eq_partial", "Lineno.reportedLineSOld_counterexample",
     "Lineno.version_arg_xref_offset", "Lineno.version_arg_xref_partial", "Lineno.version_arg_xref_counterexample",
-    "Lineno.section_title_xref_offset", "Lineno.toc_xref_offset", "Lineno.section_title_counterexample",
+    "Lineno.section_title_xref_offset", "Lineno.toc_does_not_report", "Lineno.toc_xref_offset_old", "Lineno.section_title_counterexample",
     "Lineno.doc_assignment_line_correct", "Lineno.doc_assignment_field_line_correct_partial",
     "Lineno.doc_assignment_keeps_old_base_old", "Lineno.doc_assignment_old_counterexample",
     # google / numpy
@@ -78,18 +78,13 @@ PARTIAL = {
     "Lineno.attr_both_partial":
         "an attribute documented by a class field and by its own docstring: right only if both docstrings start on the same line, "
         "i.e. never (attr_both_counterexample; open finding line:attr-field-and-inline-docstring)",
-    "Lineno.reportedLineS_eq_partial":
-        "every reported_line_* theorem speaks about reportedLine; it equals what pydoctor prints (reportedLineS, docutils' splitlines() "
-        "line structure) only when the cleaned docstring has none of U+001C-1E, U+0085, U+2028, U+2029 (noExtraBreaksClean); epytext needs "
-        "no hypothesis (reportedLineS_epytext); witness reportedLineS_counterexample (open finding line:rst-unicode-line-boundary)",
     "Lineno.version_arg_xref_partial":
         "a reference in the argument of versionadded / versionchanged / deprecated is on the directive's line only when the directive is "
         "the last line of the docstring; otherwise the line after the directive's block (version_arg_xref_offset, "
         "version_arg_xref_counterexample; open finding line:rst-version-directive-arg-xref:after-block)",
     "Lineno.section_title_xref_offset":
         "states the defect: a reference in a section title is located on the underline (open finding "
-        "line:rst-section-title-xref:underline) and, for modules and classes, a second time with offset 0 (toc_xref_offset; open finding "
-        "dup:rst-section-title-xref:toc-first-line)",
+        "line:rst-section-title-xref:underline)",
     "Lineno.type_warning_one_low":
         "states the defect: --process-types warnings of a type field are one line low for every field "
         "(open finding line:processtypes-type-warning:+1)",
@@ -99,7 +94,7 @@ PARTIAL = {
     "Lineno.napoleon_param_divergence_numpy": "every entry has at least one description line",
 }
 RULE = ("corpus first (fixed generator: the input shape of every finding and of every seeded change); then the layout grid "
-        "exhaustively three times (text on the opening line / below with 0-2 leading blank lines x raw or not x docformat (4) x owner "
+        "exhaustively twice (quick) / three times (thorough) (text on the opening line / below with 0-2 leading blank lines x raw or not x docformat (4) x owner "
         "kind (module, class, function, method, attribute) x depth 0-2), the rest random (blank-line whitespace, content indentation, "
         "closing quotes, paragraphs / list items / fields / reST consolidated fields / google-numpy parameter sections, 0-5 planted "
         "problems, vertical offset 0-7); every module runs twice through the real driver.main (offset 0 and k, with and without "
@@ -627,9 +622,7 @@ def cons_of(doc: Dict[str, Any]):
 
 def cons_tokens(doc: Dict[str, Any]) -> str:
     toks = ["%s:%d:%d" % (cls, raw, j) for cls, raw, j, _ in cons_of(doc)]
-    if doc.get("owner") in ("module", "class"):
-        # the sidebar's table of contents is rendered for objects with a page of their own: titles are linked again
-        toks += ["Z:%d:0" % raw for cls, raw, j, _ in cons_of(doc) if cls == "S"]
+    # (until fcb5e8a the sidebar's table of contents reported the titles' references a second time: model tag Z, no longer sent)
     return " ".join(toks)
 
 
@@ -684,7 +677,8 @@ def run(ctx: Ctx) -> None:
 
     # ---- plan: every (owner, layout cell, depth, fmt) at least once
     cells = layout_cells()
-    grid = [(o, c, d, f) for f in FMTS for o in OWNERS for c in cells for d in (0, 1, 2)] * 3
+    # the whole grid once is the exhaustive part; the further copies (same cells, other random contents) are the random part
+    grid = [(o, c, d, f) for f in FMTS for o in OWNERS for c in cells for d in (0, 1, 2)] * (2 if ctx.quick else 3)
     rng.shuffle(grid)
     extra = (0 if ctx.quick else 14000)
     grid += [(rng.choice(OWNERS), rng.choice(cells), rng.randrange(3), rng.choice("erngre")) for _ in range(extra)]
@@ -1079,8 +1073,8 @@ def oracle_er(ctx: Ctx, inp, fmt: str, doc, exp, uniq, span) -> None:
                          f"{where}: '{name}' in the section title on line {first} is reported a second time, on line {ln} (the docstring's first line), "
                          f"while the sidebar's table of contents is rendered")
                 continue
-            if pc == "S" and ln == first + 1 + shift + ushift(first):
-                ctx.fail("line:rst-section-title-xref:underline" if not (shift or ushift(first)) else signature(kind, ln - first - 1, first),
+            if pc == "S" and ln - first - 1 in (shift, shift + ushift(first)):
+                ctx.fail("line:rst-section-title-xref:underline" if ln - first - 1 == 0 else signature(kind, ln - first - 1, first),
                          {**inp, "object": doc["name"], "reported": ln, "expected": first, "problem": [kind, name]},
                          f"{where}: '{name}' in the section title on line {first} is reported on line {ln} (the title's underline)")
                 continue
